@@ -5,7 +5,7 @@
 From Coq Require Import List ZArith QArith Bool.
 Import ListNotations.
 Require Import QV.C09.Model QV.C09.Corr QV.C09.Proofs QV.C09.Proofs2 QV.C09.Proofs3 QV.C09.Proofs4 QV.C09.Proofs5 QV.C09.Proofs6
-               QV.C09.Proofs7 QV.C09.Proofs8 QV.C09.ProofsR QV.C09.Proofs9.
+               QV.C09.Proofs6x QV.C09.Proofs7 QV.C09.Proofs7x QV.C09.Proofs8 QV.C09.ProofsR QV.C09.ProofsE QV.C09.Proofs9.
 
 (* every freshly constructed tree (Loop(...) with nested children, any counts / waveforms / measurements) satisfies Inv *)
 Theorem C09_init : forall t, sInv (init_state t).
@@ -104,12 +104,12 @@ Proof.
 Qed.
 Print Assumptions C09_replace_same_duration.
 
-(* x[a:b] = [<fresh trees>] for a simple slice (step None or 1), any bounds incl. negative / out of range / empty, any
-   number of values: renumbering loops, detaching of the replaced children (repair of round 2), reset walk *)
+(* x[a:b:c] = [<fresh trees>] for ANY slice: plain, negative / out-of-range / empty bounds, extended with any step
+   (negative, > 1; step 0 and a length mismatch raise ValueError after the values were re-parented), any number of
+   values: renumbering loops, detaching of the replaced children (repair of round 2), reset walk *)
 Theorem C09_setitem_slice_preserves : forall h0 r x a b stp ts h' res,
-  (stp = None \/ stp = Some 1%Z) ->
   Inv h0 r -> reach h0 r x -> (cs <- mmap build ts ;; loop_setitem_slice x a b stp cs) h0 = (h', res) -> ok_result res -> Inv h' r.
-Proof. exact setslice_build_inv. Qed.
+Proof. exact setslice_build_any. Qed.
 Print Assumptions C09_setitem_slice_preserves.
 
 Theorem C09_unroll_preserves : forall h r x h' res,
@@ -165,7 +165,7 @@ Proof. intros r fuel mq q sr x h h' res L I R H OK. eapply (roll_inv r); eauto. 
 Print Assumptions C09_roll_preserves.
 
 (* ---- one step / every finite history over the WHOLE operation alphabet, arbitrary target paths and arguments, inside the
-   argument domain guard_C09_args (slice step None or 1; minimal_waveform_quanta >= 1) ------------------------------------ *)
+   argument domain guard_C09_args (roll_constant_waveforms: minimal_waveform_quanta >= 1) --------------------------------- *)
 Theorem C09_step : forall s o s' out,
   sInv s -> guard_C09_args o = true -> step s o = (s', out) -> out_ok out -> sInv s'.
 Proof. exact step_all. Qed.
@@ -188,19 +188,25 @@ Theorem C09_eq_structure_only : forall h h', esame h h' -> forall fuel a b, loop
 Proof. exact loop_eqb_esame. Qed.
 Print Assumptions C09_eq_structure_only.
 
+(* ... and conversely: a true answer proves structural equality (seq: same shape, node by node rdef_eqb / wf_eqb / meas_eqb),
+   and structural equality is answered true as soon as the fuel exceeds the height of the left operand; on a state that
+   satisfies the invariant such a fuel exists for every live node *)
+Theorem C09_eq_sound : forall h fuel a b, loop_eqb fuel h a b = true -> seq h a b.
+Proof. exact loop_eqb_sound. Qed.
+Print Assumptions C09_eq_sound.
+
+Theorem C09_eq_decides : forall h r P a, InvExc h r P -> reach h r a ->
+  exists k, forall fuel b, (k <= fuel)%nat -> (loop_eqb fuel h a b = true <-> seq h a b).
+Proof. exact loop_eqb_decides. Qed.
+Print Assumptions C09_eq_decides.
+
 (* the hypotheses are satisfiable: a one-leaf program satisfies the invariant, and a proved operation runs on it *)
 Theorem C09_nonvacuous : forall w, sInv (leaf_state w) /\
   out_ok (snd (step (leaf_state w) (OSetRepCount [] 5))) /\ guard_C09_args (OSetRepCount [] 5) = true.
 Proof. intros w; split; [apply leaf_state_inv|split; [exact I|reflexivity]]. Qed.
 Print Assumptions C09_nonvacuous.
 
-(* ---- still open: the same statements with extended slices (explicit step other than 1) admitted; tested by the
-   correspondence check only -------------------------------------------------------------------------------------------- *)
-Definition roll_domain (o : op) : bool := match o with ORoll _ mq _ _ => (1 <=? mq)%Z | _ => true end.
-Definition C09_step_statement : Prop := forall s o s' out,
-  sInv s -> roll_domain o = true -> step s o = (s', out) -> out_ok out -> sInv s'.
-Definition C09_history_statement : Prop := forall ops s,
-  sInv s -> forallb roll_domain ops = true -> run_ok s ops -> sInv (run s ops).
+(* ---- still open ----------------------------------------------------------------------------------------------------- *)
 (* open: every tree the user holds (the program and every node that dropped out of it) keeps the invariant under
    operations on any of them (fstep); tested by the correspondence check only *)
 Definition C09_forest_statement : Prop := forall ops fs,
